@@ -257,6 +257,20 @@ def run(nodes, outcomes, xor=False):
             bs = sorted(qubit_lists[0]); kk = len(bs)
             psi = opexpr.embed(opexpr.dft(kk) @ opexpr.bitrev_perm(kk), bs, n) @ psi
             return
+        low = name.lower()
+        jc = len(low) - len(low.lstrip("c"))
+        if jc >= 1 and low[jc:] in BROADCAST1 and not params and len(qubit_lists) > jc \
+                and all(len(q) == 1 for q in qubit_lists[:jc]) \
+                and (len(qubit_lists) > jc + 1 or len(qubit_lists[jc]) > 1):
+            # c...c-prefixed one-qubit gate with several target qubits (a whole register, or several arguments): the
+            # first arguments are controls, the gate acts on every remaining qubit under the same controls
+            ctrls = [q[0] for q in qubit_lists[:jc]]
+            targets = [b for q in qubit_lists[jc:] for b in q]
+            if len(set(ctrls + targets)) != len(ctrls) + len(targets):
+                raise IllFormed("repeated qubit")
+            for t in targets:
+                apply_gate(name, [[c] for c in ctrls] + [[t]], params, depth + 1)
+            return
         if any(len(q) != 1 for q in qubit_lists):
             raise Unsupported("whole-register argument to a built-in gate")
         bits = [q[0] for q in qubit_lists]
